@@ -27,6 +27,9 @@ def run(tier):
     n = 2500 if quick else 80000
     rng = ck.rng.fork("iter")
     plist = [{"name": "iter/%d" % i, "steps": [("snip", feat_data.iter_program(rng.fork(str(i))))], "mods": []} for i in range(n)]
+    r3 = ck.rng.fork("itermut")
+    plist += [{"name": "itermut/%d" % i, "steps": [("snip", feat_data.iter_mutation_program(r3.fork(str(i))))], "mods": []}
+              for i in range(300 if quick else 10000)]
     prof = profiles(ck.findings.avoid_tags())[0][1]
     r2 = ck.rng.fork("mixed")
     for i in range(400 if quick else 10000):
